@@ -207,6 +207,14 @@ def run(ctx):
             dd = d - 1
             plan.append((cfg, "A013", dd))
             tasks += [dict(t, alphabet_name="A013") for t in tree.tree_tasks(cfg, ALPHABETS["A013"], dd, split=3)]
+    # value domains (all negative, tiny across zero, closer than 1e-9) and values of r outside the grid above
+    for N in (1, 2):
+        bx = "B0" if N != 2 else "B1"
+        for cfg, a in [(dict(N=N, r=2.0, box=bx), a) for a in ("Aneg", "Atiny", "Anear", "Anegbig")] + \
+                      [(dict(N=N, r=r, box=bx), "Am201") for r in (4.0, 16.0, 12.5, 1.01)]:
+            dd = d - 2
+            plan.append((cfg, a, dd))
+            tasks += [dict(t, alphabet_name=a) for t in tree.tree_tasks(cfg, ALPHABETS[a], dd, split=3)]
     out = pmap(block, tasks)
     runs = hist = classes = nontriv = 0
     outcomes = set()
